@@ -82,6 +82,7 @@ COVER = [
     ({"LICM-SOUND"}, {"PASS-EQUIV"}),
     ({"EXPR-LAYOUT"}, {"GEN-EXPR"}),
     ({"BOUND-SAMESRC"}, {"GEN-BLOCKS", "GEN-DEFS", "GEN-EXPR"}),
+    ({"RULE-COHERENCE"}, {"GEN-KERNEL"}),
     ({"IDX-SPACE", "PERM-CONSISTENT", "FORM-KERNEL-ALIGN"}, {"GEN-FORM"}),
 ]
 
@@ -135,6 +136,8 @@ DEMOTE = {
     "PERM-CONSISTENT": ({"GEN-FORM"}, lambda key: True),
     "IDX-SPACE": ({"GEN-FORM"}, lambda key: True),
     "FORM-KERNEL-ALIGN": ({"GEN-FORM"}, lambda key: True),
+    "BOUND-SAMESRC": ({"GEN-BLOCKS", "GEN-DEFS", "GEN-EXPR"}, lambda key: True),
+    "RULE-COHERENCE": ({"GEN-KERNEL"}, lambda key: True),
     "EXPR-LAYOUT": ({"GEN-EXPR"}, lambda key: any(t in key for t in (":multi-index-count", ":index-roles:", ":factor-of-component"))),
 }
 
